@@ -314,14 +314,15 @@ Exclusive == /\ hcalled => Intercepted(c) /\ ~pcalled /\ ~ucalled /\ hcall.m = T
 NoCallOnFault == MalformedReq(c) => ~hcalled /\ ~pcalled /\ (Done => out.status \in 400..499 \/ (Malformed = "ascoded" /\ out.status = 500))
 ClientFault4xx == Done /\ MalformedReq(c) => out.status \in 400..499
 ArgFidelity == hcalled => hcall.args = WantArgs(c) /\ (c.body.form # "wrongfork" /\ Table[c.ep].body \in {"objs", "idx"} => hcall.objs = c.sent)
+Get(m, k) == IF k \in DOMAIN m THEN m[k] ELSE "<absent>"
 RespFidelity == /\ Done /\ hcalled /\ hcall.ret.kind = "ok" /\ out.status = 200 =>
                      /\ out.objs = (IF Table[c.ep].rk = "none" THEN <<>> ELSE hcall.ret.objs)
-                     /\ Table[c.ep].rk = "proposal" => /\ out.meta.execution_payload_blinded = hcall.ret.blinded /\ out.meta.hblinded = hcall.ret.blinded
-                                                        /\ out.meta.version = hcall.ret.ver /\ out.meta.hversion = hcall.ret.ver
-                                                        /\ out.meta.hev = hcall.ret.ev /\ out.meta.hcv = hcall.ret.cv
-                     /\ Table[c.ep].rk = "versioned" => out.meta.version = hcall.ret.ver /\ out.meta.hversion = hcall.ret.ver
-                     /\ Table[c.ep].rk = "duties" /\ hcall.ret.meta = "ok" => out.meta.execution_optimistic = hcall.ret.eo /\ out.meta.dependent_root = hcall.ret.droot
-                /\ Done /\ pcalled /\ pcall.ret.kind = "ok" => out.status = pcall.ret.status /\ out.objs = <<pcall.ret.body>> /\ out.meta.hup = pcall.ret.hdr
+                     /\ Table[c.ep].rk = "proposal" => /\ Get(out.meta, "execution_payload_blinded") = hcall.ret.blinded /\ Get(out.meta, "hblinded") = hcall.ret.blinded
+                                                        /\ Get(out.meta, "version") = hcall.ret.ver /\ Get(out.meta, "hversion") = hcall.ret.ver
+                                                        /\ Get(out.meta, "hev") = hcall.ret.ev /\ Get(out.meta, "hcv") = hcall.ret.cv
+                     /\ Table[c.ep].rk = "versioned" => Get(out.meta, "version") = hcall.ret.ver /\ Get(out.meta, "hversion") = hcall.ret.ver
+                     /\ Table[c.ep].rk = "duties" /\ hcall.ret.meta = "ok" => Get(out.meta, "execution_optimistic") = hcall.ret.eo /\ Get(out.meta, "dependent_root") = hcall.ret.droot
+                /\ Done /\ pcalled /\ pcall.ret.kind = "ok" => out.status = pcall.ret.status /\ out.objs = <<pcall.ret.body>> /\ Get(out.meta, "hup") = pcall.ret.hdr
                 /\ Done /\ hcalled /\ hcall.ret.kind = "ok" /\ Table[c.ep].rk \in {"none", "data", "sduties", "vals", "nodever"} => out.status = 200
 ErrorsShaped == Done => /\ out.status >= 400 /\ ~(pcalled /\ pcall.ret.kind = "ok") /\ ~ucalled => out.code = out.status /\ out.ctype = "json"
                         /\ hcalled /\ hcall.ret.kind = "err" => out.status \in 500..599
